@@ -13,7 +13,8 @@ VARIABLES stage, raw, cut
 vars == <<stage, raw, cut>>
 
 Kinds(v) == {"list", "array", "index"} \cup (IF Len(v) = 1 THEN {"int"} ELSE {})
-                \cup (IF \A i \in 1..(Len(v) - 1) : v[i + 1] = v[i] + 1 THEN {"range"} ELSE {})
+                \cup (IF Len(v) >= 2 /\ \A i \in 1..(Len(v) - 1) : v[i + 1] - v[i] = v[2] - v[1] THEN {"range"} ELSE {})
+                \* an arithmetic progression (ascending or descending) can be given as a RangeIndex
 
 Init == stage = "build" /\ raw = [kind |-> "list", vals |-> << >>, rel |-> TRUE, fault |-> "none"] /\ cut = 0
 
